@@ -31,6 +31,14 @@ Definition death_in_apply_restarts_worker : bool :=
   (pos_of "      else:" death_handler_body <? pos_of "        self._worker_comms.signal_exception_thrown(job_id)" death_handler_body) &&
   has "        self._worker_comms.signal_exception_thrown(job_id)" death_handler_body.
 
+(* timeout handler: the overrunning worker is interrupted BEFORE the job is marked failed (and its error callback
+   run): from then on that worker cannot deliver a result for the job any more, so the timeout is the job's only _set *)
+Definition timeout_interrupts_before_it_sets : bool :=
+  has "      self._send_kill_signal_to_worker(worker_id)" timeout_handler_body &&
+  (pos_of "      self._send_kill_signal_to_worker(worker_id)" timeout_handler_body
+   <? pos_of "        self._cache[job_id]._set(success=False, result=err)" timeout_handler_body) &&
+  has "        self._cache[job_id]._set(success=False, result=err)" timeout_handler_body.
+
 Inductive oc := OOk (v : Z) | ORaise (e : Z) | OBlock | ODie.       (* what the user function does with this task *)
 Inductive jphase := JQueued | JRunning | JSent (ok : bool) (v : Z) | JGone | JDead.   (* JDead: the process was killed inside the task *)
 Definition TIMEOUT : Z := (-7)%Z.
@@ -97,7 +105,10 @@ Definition astep (s : ast) (a : alabel) : option ast :=
           match j_phase j, j_oc j with
           | JRunning, OBlock =>
               if j_to j then
-                Some (mkA (upd (jobs s) i (if j_cache j then set_result j false TIMEOUT JGone else with_phase j JGone)) (exn s))
+                if timeout_interrupts_before_it_sets
+                then Some (mkA (upd (jobs s) i (if j_cache j then set_result j false TIMEOUT JGone else with_phase j JGone)) (exn s))
+                else (* the task keeps running while the error callback runs: it can still complete and be set a second time *)
+                     Some (mkA (upd (jobs s) i (if j_cache j then set_result j false TIMEOUT JRunning else j)) true)
               else None
           | _, _ => None
           end
